@@ -1,6 +1,6 @@
 (* Proofs/UploaderEver: histories.  A count file of week W is removed only
    in a run in which, now or earlier, a report for W existed: local.W.json,
-   W.json, upload/W.json, or a ready file whose path contains W (the
+   W.json, upload/W.json, or a ready file whose name contains W (the
    substring test of notNeeded). *)
 From Coq Require Import List ZArith NArith Bool Lia Arith.
 From Tele Require Import Lib.Bytes Lib.FS Model.Span Model.Uploader
@@ -33,9 +33,9 @@ Proof. apply Exists_cons_hd. Qed.
 Definition in_local (n : bytes) (s : state) : Prop := d_mem (f_local (s_fs s)) n = true.
 Definition in_up (n : bytes) (s : state) : Prop := d_mem (up_dir (s_fs s)) n = true.
 
-Definition witness (w dirp : bytes) (s : state) : Prop :=
+Definition witness (w : bytes) (s : state) : Prop :=
   in_local (local_name w) s \/ in_local (ready_name w) s \/ in_up (marker_name w) s \/
-  exists f, in_local f s /\ rname f /\ contains (dirp ++ f) w = true.
+  exists f, in_local f s /\ rname f /\ contains f w = true.
 
 (* ---- listings ---- *)
 Lemma in_ins_sorted x y l : In x (ins_sorted y l) <-> x = y \/ In x l.
@@ -69,7 +69,7 @@ Definition making (p : pc) : bool :=
 Record ever_inv (tr : list state) (t : thread) : Prop := mkEI {
   ei_uploaded : forall u n, t_uploaded t = Some u -> In n u -> ever (in_up n) tr;
   ei_ready : forall f, In f (t_ready t) -> ever (in_local f) tr;
-  ei_del : t_pc t = RDel -> ever (witness (t_week t) (u_dir (t_cfg t))) tr;
+  ei_del : t_pc t = RDel -> ever (witness (t_week t)) tr;
   ei_making : making (t_pc t) = true -> t_upok t = true -> ever (in_local (ready_name (t_week t))) tr;
   ei_wlocal : t_pc t = RWriteLocal -> ever (in_local (local_name (t_week t))) tr
 }.
@@ -159,7 +159,7 @@ Qed.
 Theorem delete_only_after_report st tr i a t n t' :
   treach (st :: tr) -> nth_error (s_ths st) i = Some t ->
   decide_all (s_fs st) a t = (ERemLocal n, t') -> is_count n = true ->
-  ever (witness (t_week t) (u_dir (t_cfg t))) (st :: tr).
+  ever (witness (t_week t)) (st :: tr).
 Proof.
   intros Htr Hi Hd Hn. pose proof (treach_reach _ _ Htr) as Hr.
   destruct (remlocal_name _ _ _ _ _ _ Hr Hi Hd) as [(_ & Hpc & _) | (Hc & _)]; [|congruence].
